@@ -62,9 +62,47 @@ class C09(Check):
                     pl = bytes([k]) * min(65535, 4 * full // k + 64)
                     meta = dict(seed=sname, idx=idx, content=m["content"], plan_len=len(pl), mode=1, impl_only=True)
                     cases.append(("entry_sched %s %d %d %s %s %s 1" % (hexs(data), idx, 1 if pw else 0, hexs(pw or b""), hexs(pl), hexs(bytes([r.choice([1, 7, 64])]))), meta))
+        # ---- writer side: the archive is byte-identical however the sink accepts short writes
+        import wprog
+        from wprog import Opts
+        progs = []
+        for j in range(12 if self.tier == "quick" else 200):
+            ops = []
+            for i in range(r.randrange(1, 4)):
+                m = r.choice([0, 0, 8, 12, 93])
+                ops.append(("file", b"w%d" % i, Opts(method=m, large=r.random() < 0.2, pw=r.choice([None, None, b"pw"]))))
+                c = bytes(r.randrange(256) for _ in range(r.choice([0, 1, 50, 3000])))
+                ops.append(("write", c))
+            if r.random() < 0.4:
+                ops.append(("dir", b"d", Opts()))
+            ops.append(("comment", b"short writes"))
+            ops.append(("finish",))
+            progs.append(ops)
+        runs = []
+        for ops in progs:
+            runs.append(dict(ops=ops, plan=None))
+            for k in (1, 2, 7):
+                runs.append(dict(ops=ops, plan=bytes([k]) * 4000))
+            runs.append(dict(ops=ops, plan=bytes(r.choice([1, 3, 9, 255]) for _ in range(3000))))
+        lines, outs = wprog.with_tables(self.exes["debug"], runs)
+        base = None
+        for rn, l, o in zip(runs, lines, outs):
+            _, data = wprog.final_bytes(o)
+            if rn["plan"] is None:
+                base = data
+                cases.append((l, dict(mode=2, content=None, plan_len=0)))
+            else:
+                meta = dict(mode=2, content=None, plan_len=len(rn["plan"]))
+                if data != base:
+                    meta["pre_violation"] = "archive bytes differ when the sink accepts short writes"
+                cases.append((l, meta))
         return cases
 
     def oracle(self, line, meta, out):
+        if meta.get("pre_violation"):
+            return meta["pre_violation"]
+        if meta.get("mode") == 2:
+            return "writer call failed or panicked under short writes: " + out[:100] if (out is None or "PANIC" in out or "[Err" in out) else None
         if out is None or "PANIC" in out or out.startswith("ABORT") or out == "TIMEOUT":
             return "implementation did not return: %s" % (out or "")[:120]
         if "EOF-NOT-STICKY" in out or "LIVELOCK" in out or "BAD-COUNT" in out:
@@ -82,6 +120,6 @@ class C09(Check):
 
     def nontrivial(self, line, meta, out):
         m = re.search(r"\[([0-9 ]*)\]\]\]$", out or "")
-        return meta["mode"] == 1 or (bool(m) and len(m.group(1).split()) > 1)
+        return meta["mode"] in (1, 2) or (bool(m) and len(m.group(1).split()) > 1)
 
 CHECK = C09
